@@ -66,7 +66,8 @@ MUTANTS = [
     ("C12", "abs_rel_diff", G, "                if self._chi2 <= chi2_prev and rel_diff < tol:", "                if abs(rel_diff) < tol:"),
     ("C12", "final_chi2_from_previous_iteration", G, "                    ret.final_chi2 = self._chi2\n                    ret.iteration_results[-1].duration_s", "                    ret.final_chi2 = chi2_prev\n                    ret.iteration_results[-1].duration_s"),
     ("C12", "no_final_calc_chi2", G, "        self.calc_chi2()\n        rel_diff", "        rel_diff"),
-    ("C12", "hidden_chi2_prev_across_calls", G, "        chi2_prev = -1.0\n", "        chi2_prev = self._chi2 if self._chi2 is not None else -1.0\n"),
+    ("C12", "hidden_chi2_prev_across_calls", G, ["        chi2_prev = -1.0\n", "            if i > 0:\n                rel_diff"],
+     ["        chi2_prev = self._chi2 if self._chi2 is not None else -1.0\n", "            if chi2_prev >= 0.0:\n                rel_diff"]),
     ("C12", "verbose_changes_tolerance", G, "                if self._chi2 <= chi2_prev and rel_diff < tol:", "                if self._chi2 <= chi2_prev and rel_diff < (tol * 10 if verbose else tol):"),
     ("C12", "duration_in_stopping_test", G, "                if self._chi2 <= chi2_prev and rel_diff < tol:", "                if self._chi2 <= chi2_prev and (rel_diff < tol or time.time() - start_time > 60.0):"),
     ("C12", "complete_iteration_by_truthiness", G, "            return self.solve_duration_s is not None", "            return bool(self.solve_duration_s)"),
@@ -158,9 +159,11 @@ def apply_mutant(root, m):
     path = os.path.join(root, rel)
     with open(path) as f:
         s = f.read()
-    if s.count(old) < 1:
-        raise RuntimeError("mutant %s/%s: pattern not found in %s" % (prop, name, rel))
-    s = s.replace(old, new, 1)
+    pairs = list(zip(old, new)) if isinstance(old, (list, tuple)) else [(old, new)]
+    for o, n in pairs:
+        if s.count(o) < 1:
+            raise RuntimeError("mutant %s/%s: pattern not found in %s" % (prop, name, rel))
+        s = s.replace(o, n, 1)
     with open(path, "w") as f:
         f.write(s)
     # must still compile
